@@ -3,7 +3,7 @@
    Model: coq/Func.v (render_func chain, the reader parse_call, denote_edge, the wrapper catalogue types);
    proofs: lemmas/FuncText.v, lemmas/FuncLemmas.v, lemmas/FuncCatalogue.v;
    coq/gen/C18Table.v is regenerated from the pypika sources on every run. *)
-From PV Require Import Base Func FuncCorr lemmas.FuncText lemmas.FuncLemmas lemmas.FuncCatalogue gen.C18Table.
+From PV Require Import Base Func FuncCorr lemmas.FuncText lemmas.FuncLemmas lemmas.FuncOps lemmas.FuncCatalogue gen.C18Table.
 Open Scope string_scope.
 
 (* "renders every part, once, in order": the text exists, reads back as exactly the requested parts
@@ -37,21 +37,22 @@ Definition catalogue_ok : Prop :=
         /\ forallb arg_ok (inst_args p ts) = true
         /\ map (fun k => nth k ts "") (param_seq p) = ts).
 
-(* The property as worded: ALL combinations of the optional clauses, ALL CustomFunction calls. *)
+(* The property as worded: ALL combinations of the optional clauses = every sequence of clause-method calls
+   (.distinct .filter .over .orderby .rows/.range .ignore_nulls, FuncCorr.apply_ops) that pypika accepts on a
+   freshly constructed wrapper; ALL CustomFunction calls. *)
 Definition C18_full_statement : Prop :=
-  (forall o fd args, texts_ok fd = true -> forallb arg_ok args = true -> tail_ok (tail_text o fd) = true ->
+  (forall w o fd0 ops fd args,
+     fresh fd0 = true -> apply_ops w fd0 ops = Ok fd ->
+     texts_ok fd = true -> forallb arg_ok args = true -> tail_ok (tail_text o fd) = true ->
      renders_every_part o fd args)
   /\ (forall params args args', custom_call params args = Ok args' -> args' = args)
-  /\ edges_denote /\ distinct_splice_ok /\ catalogue_ok.
-
-(* ... on the clause combinations that can render what was asked (combo_ok: a requested FILTER has a criterion,
-   a frame comes with over()/orderby()) and for CustomFunctions with declared parameters *)
-Definition C18_fragment_statement : Prop :=
-  (forall o fd args, texts_ok fd = true -> combo_ok fd = true -> forallb arg_ok args = true ->
-     tail_ok (tail_text o fd) = true -> renders_every_part o fd args)
-  /\ (forall ps args args', custom_call (Some ps) args = Ok args' -> args' = args)
   /\ (forall ps args, List.length args <> List.length ps -> custom_call (Some ps) args = Err "FunctionException")
   /\ edges_denote /\ distinct_splice_ok /\ catalogue_ok.
+
+(* Nothing is excluded at the level of calls.  At the level of descriptions the reachable states are exactly
+   characterised by combo_ok (a requested FILTER has a criterion, a frame comes with the OVER clause):
+   lemmas/FuncOps.v apply_ops_combo; C18_unreachable_state below shows what the rendering code would still do
+   with a state outside it. *)
 
 Lemma edges_denote_holds : edges_denote.
 Proof.
@@ -64,60 +65,87 @@ Proof.
   intros w p ts name Hin Hb Hp Hl Ha Hn. apply wrapper_instance; auto. apply catalogue_entries_generic; auto.
 Qed.
 
-Theorem C18_on_fragment : C18_fragment_statement.
+(* the description-level theorem: every description inside combo_ok renders every part *)
+Theorem C18_on_descriptions : forall o fd args,
+  texts_ok fd = true -> combo_ok fd = true -> forallb arg_ok args = true -> tail_ok (tail_text o fd) = true ->
+  renders_every_part o fd args.
+Proof.
+  intros o fd args Ht Hc Ha Htl. destruct (render_parse o fd args Ht Hc Ha Htl) as [s [H1 H2]].
+  exists s. split; [exact H1|]. split; [exact H2|]. intros Hw.
+  destruct (texts_ok_parts fd Ht) as [_ [_ [_ [_ [_ [_ Hb]]]]]]. destruct (combo_ok_parts fd Hc) as [Hne _].
+  rewrite (get_sql_norm o fd args Hb Hne) in H1. inversion H1 as [E]. unfold tail_text. rewrite Hw. cbn [tail_part].
+  rewrite sapp_nil_r. apply render_balanced; assumption.
+Qed.
+Print Assumptions C18_on_descriptions.
+
+Lemma custom_call_passes : forall params args args', custom_call params args = Ok args' -> args' = args.
+Proof.
+  intros [ps|] args args' H; unfold custom_call in H; [|congruence].
+  destruct (Nat.eqb (List.length args) (List.length ps)); congruence.
+Qed.
+
+Theorem C18_holds : C18_full_statement.
 Proof.
   split.
-  { intros o fd args Ht Hc Ha Htl. destruct (render_parse o fd args Ht Hc Ha Htl) as [s [H1 H2]].
-    exists s. split; [exact H1|]. split; [exact H2|]. intros Hw.
-    destruct (texts_ok_parts fd Ht) as [_ [_ [_ [_ [_ [_ Hb]]]]]]. destruct (combo_ok_parts fd Hc) as [Hne _].
-    rewrite (get_sql_norm o fd args Hb Hne) in H1. inversion H1 as [E]. unfold tail_text. rewrite Hw. cbn [tail_part].
-    rewrite sapp_nil_r. apply render_balanced; assumption. }
-  split.
-  { intros ps args args' H. unfold custom_call in H. destruct (Nat.eqb (List.length args) (List.length ps)); congruence. }
-  split; [exact custom_call_mismatch|].
+  { intros w o fd0 ops fd args Hf Ha Ht Hargs Htl. apply C18_on_descriptions; auto.
+    exact (apply_ops_combo w ops fd0 fd (fresh_combo fd0 Hf) Ha). }
+  split; [exact custom_call_passes|]. split; [exact custom_call_mismatch|].
   split; [exact edges_denote_holds|]. split; [exact splice_after_paren|]. exact catalogue_ok_holds.
 Qed.
-Print Assumptions C18_on_fragment.
+Print Assumptions C18_holds.
 
-(* ---- the faithful model refutes the property as worded: three genuine defects ---- *)
+(* The four defects found while building this check are fixed upstream and are now theorems of the model:
+   filter() without arguments is a no-op (9b8ab76) and EmptyCriterion arguments are dropped (b46d576): apply_op;
+   a frame switches OVER on (356e88f): set_frame; CustomFunction without declared params passes its
+   arguments (b2a2b7a): custom_call_passes.
+   The rendering code itself is unchanged: a description with _include_filter and no criteria would still raise
+   TypeError - but no sequence of clause calls reaches it any more (C18_holds quantifies over all of them). *)
 Definition no_alias : ropts := {| ro_with_alias := false; ro_quote := Some """"; ro_alias_quote := None; ro_as_keyword := false |}.
-
-(* filter() without criteria: include_filter is set, Criterion.all([]) is the EmptyCriterion, its get_sql
-   does not take keyword arguments: TypeError at render *)
-Definition w_empty_filter : func_desc :=
+Definition w_sum : wrapper :=
+  {| w_module := "pypika.functions"; w_class := "Sum"; w_sql := "SUM"; w_named := false; w_agg := true; w_distinct := true;
+     w_analytic := false; w_frame := false; w_ignore_nulls := false; w_schema := false; w_alias := true; w_bare := false;
+     w_probes := [{| p_kinds := [PTerm]; p_slots := [SParam 0]; p_special := None |}] |}.
+Definition unreachable_empty_filter : func_desc :=
   {| fd_name := "SUM"; fd_schema := None; fd_alias := None; fd_special := None; fd_distinct := false;
      fd_filters := []; fd_include_filter := true; fd_partition := []; fd_orderbys := []; fd_include_over := false;
      fd_frame := None; fd_bare := false |}.
-Theorem C18_refuted_empty_filter :
-  texts_ok w_empty_filter = true /\ get_sql no_alias w_empty_filter ["""a"""] = Err "TypeError".
-Proof. vm_compute. split; reflexivity. Qed.
-Print Assumptions C18_refuted_empty_filter.
-
-(* rows()/range() without over()/orderby(): the frame is silently dropped *)
-Definition w_frame_no_over : func_desc :=
-  {| fd_name := "SUM"; fd_schema := None; fd_alias := None; fd_special := None; fd_distinct := false;
-     fd_filters := []; fd_include_filter := false; fd_partition := []; fd_orderbys := []; fd_include_over := false;
-     fd_frame := Some (Rows, BEdge Preceding (Some 3%Z), Some (BEdge Following None)); fd_bare := false |}.
-Theorem C18_refuted_frame_without_over :
-  texts_ok w_frame_no_over = true
-  /\ get_sql no_alias w_frame_no_over ["""a"""] = Ok "SUM(""a"")"
-  /\ option_map a_over (parse_call "SUM(""a"")") = Some None
-  /\ a_over (expected_ast no_alias w_frame_no_over ["""a"""]) <> None.
-Proof. vm_compute. repeat split; try reflexivity. discriminate. Qed.
-Print Assumptions C18_refuted_frame_without_over.
-
-(* CustomFunction without declared parameters ignores its call arguments *)
-Theorem C18_refuted_custom_function : custom_call None ["""a"""; """b"""] = Ok [].
-Proof. reflexivity. Qed.
-Print Assumptions C18_refuted_custom_function.
-
-Theorem C18_refuted : ~ C18_full_statement.
+Theorem C18_unreachable_state :
+  combo_ok unreachable_empty_filter = false
+  /\ get_sql no_alias unreachable_empty_filter ["""a"""] = Err "TypeError"
+  /\ (forall w fd0 ops, fresh fd0 = true -> apply_ops w fd0 ops <> Ok unreachable_empty_filter).
 Proof.
-  intros [H _].
-  destruct (H no_alias w_empty_filter ["""a"""] eq_refl eq_refl eq_refl) as [s [H1 _]].
-  vm_compute in H1. discriminate.
+  split; [reflexivity|]. split; [reflexivity|].
+  intros w fd0 ops Hf H. pose proof (apply_ops_combo w ops fd0 _ (fresh_combo fd0 Hf) H) as C. discriminate.
 Qed.
-Print Assumptions C18_refuted.
+Print Assumptions C18_unreachable_state.
+
+(* the former witnesses, on the model: all of them render now *)
+Example C18_fixed_filter_examples :
+  lookup_wrapper "pypika.functions" "Sum" catalogue = Some w_sum
+  /\ apply_ops w_sum (plain_func "SUM") [OFilter []] = Ok (plain_func "SUM")
+  /\ apply_ops w_sum (plain_func "SUM") [OFilter [None]; OFilter [None; None]] = Ok (plain_func "SUM")
+  /\ match apply_ops w_sum (plain_func "SUM") [OFilter [None; Some """a"">1"; None]; OFilter []; OFilter [Some "x=2"]] with
+     | Ok fd => get_sql no_alias fd ["""a"""] | Err e => Err e end = Ok "SUM(""a"") FILTER(WHERE ""a"">1 AND x=2)".
+Proof. vm_compute. repeat split; reflexivity. Qed.
+
+(* regression facts for the upstream fixes, on the model *)
+Theorem C18_fixed_filter_noop : forall w fd cs, w_agg w = true -> somes cs = [] -> apply_op w fd (OFilter cs) = Ok fd.
+Proof. intros w fd cs H E. cbn. rewrite H, E. reflexivity. Qed.
+Print Assumptions C18_fixed_filter_noop.
+
+Theorem C18_fixed_frame_implies_over : forall fd k b ab fd',
+  set_frame fd k b ab = Ok fd' -> fd_include_over fd' = true /\ fd_frame fd' = Some (k, b, ab).
+Proof. intros fd k b ab fd' H. unfold set_frame in H. destruct (fd_frame fd); [discriminate|]. inversion H. split; reflexivity. Qed.
+Print Assumptions C18_fixed_frame_implies_over.
+
+Example C18_fixed_frame_example :
+  match set_frame (plain_func "SUM") Rows (BEdge Preceding (Some 3%Z)) None with
+  | Ok fd => get_sql no_alias fd ["""a"""] | Err e => Err e end = Ok "SUM(""a"") OVER( ROWS 3 PRECEDING)".
+Proof. vm_compute. reflexivity. Qed.
+
+Theorem C18_fixed_custom_function : forall args, custom_call None args = Ok args.
+Proof. reflexivity. Qed.
+Print Assumptions C18_fixed_custom_function.
 
 (* the fixed defect (5862a90): bound 0 is a number, not UNBOUNDED - now a theorem for every n *)
 Theorem C18_bound_zero : render_edge (Preceding, Some 0%Z) = "0 PRECEDING" /\ render_edge (Following, None) = "UNBOUNDED FOLLOWING".
